@@ -247,7 +247,7 @@ def run_stage(pid, stage, tier, seed, workdir, replay_case=None):
                     # re-run the journaled case alone under the per-case watchdog
                     rc2, out2, err2 = run_worker(base_cmd(0, 1, j, j + 1), env, case_timeout, outdir, shard)
                     if rc2 == "timeout":
-                        local["violations"].append(_crash_violation(pid, stage, seed, tier, j, "hang", "case did not finish within %ds (twice)" % case_timeout, "", outdir, shard, extra))
+                        local["violations"].append(_crash_violation(pid, stage, seed, tier, j, "hang", "case did not finish within %ds (twice)" % case_timeout, _note(outdir, shard), outdir, shard, extra))
                         start = j + 1
                         local["restarts"] += 1
                         deadline = time.time() + timeout
